@@ -10,7 +10,7 @@ Import ListNotations.
 
 (* A forced version is used or the request fails - in EVERY client state (whatever the connection caches and
    the Alt-Svc bookkeeping hold), against every server.  The only other outcome the code has - an https
-   request written in clear - needs the plain DialTLSContext that EnableH2C installs (known finding). *)
+   request written in clear - needs a plain DialTLSContext, which no reachable client has any more (C12_https_never_in_clear). *)
 Theorem C12_forced_version_or_fail : forall e c v,
   version_of (c_force c) = Some v ->
   match outcome_of (do_req e c) with
@@ -137,7 +137,15 @@ Proof.
 Qed.
 Print Assumptions C12_clone_independent.
 
-(* the two defects of the pinned tree, as theorems about the pinned variants of the same functions *)
+(* No https request of a client reachable from req.C() - by ANY sequence of EnableH2C / DisableH2C / SetDialTLS /
+   SetTLSHandshake / Clone / requests ... - is written in clear (repair ecf6c40: EnableH2C no longer installs a
+   plain dialler in the DialTLSContext slot; the pinned behaviour is refuted below). *)
+Theorem C12_https_never_in_clear : forall e c,
+  reachable e c -> outcome_of (do_req e c) <> Cleartext.
+Proof. exact never_in_clear. Qed.
+Print Assumptions C12_https_never_in_clear.
+
+(* the three defects of the pinned tree, as theorems about the pinned variants of the same functions *)
 Theorem C12_tls_uniform_pinned_refuted :
   exists host o, sec (tls_view_pinned S3 false host o) <> sec (effective host o).
 Proof. exact tls_view_pinned_refuted. Qed.
@@ -151,6 +159,11 @@ Theorem C12_forced_pinned_refuted :
      ObsReq (Use V3) []].
 Proof. exact forced_pinned_refuted. Qed.
 Print Assumptions C12_forced_pinned_refuted.
+
+Theorem C12_h2c_pinned_refuted :
+  outcome_of (do_req local_env (with_h2c true true (mutate (add_root 1%N) new_client))) = Cleartext.
+Proof. exact h2c_pinned_refuted. Qed.
+Print Assumptions C12_h2c_pinned_refuted.
 
 (* non-vacuity: a reachable forced state with a learned Alt-Svc entry, where the repaired dispatch stays on
    the forced version (same operations as the refutation above) *)
